@@ -9,6 +9,11 @@ CHECKS = {
     technique="TLA+ definition (Filter.tla) model-checked by TLC; TLC-generated vectors replayed into FilterConfig::should_process of all three crates",
     text="TLC evaluates the documented filter rule (Filter.tla) on every configuration x endpoint of a bounded vocabulary, checks the rule's algebraic laws on the definition, and the same exhaustive table is demanded bit for bit from the real should_process of the tcp/http/tls crates built from /repo. Exhaustive within the vocabulary, which contains every boundary the statement names (ports 0/65535, empty/reversed/full ranges, prefix 0/1/31/32/64/65/127/128, v4/v6, side selection, any-port, allow/deny, every subset of sub-filters).",
     note="Trusted: TLC, the transcription of the documented rule in Filter.tla, the harness's builder calls. Bounded vocabulary (MC_C14.tla)."),
+ "C06": dict(
+    level="model_checking", design="§5 C06",
+    technique="TLA+ vocabulary/printer (P0fVocab.tla) and loader state machine (DbLoad.tla) explored by TLC; vectors replayed into Display/FromStr/Database::from_str; bundled p0f.fp validated as a trace of DbLoad (TV_C06)",
+    text="TLC enumerates signature values over the p0f vocabulary with their canonical text (checking that printing is injective) and every database text of bounded length as a behaviour of the loader model with the structure it must yield or its rejection; the real Display/FromStr/Database::from_str are held to those results, every bundled signature line must re-print to itself, and the bundled file as a whole is trace-validated against the loader model so that its 323 signatures, MTU groups, classes and ua rules must sit exactly where the file puts them.",
+    note="Trusted: TLC, P0fVocab.Print* as the canonical text, the 40-line lexer that splits p0f.fp into key/value events, harness JSON<->struct conversion. Bounded vocabulary and line pool."),
 }
 
 NOT_YET = {}
